@@ -676,8 +676,8 @@ def rule_def_account(ctx, rep):
                     calls.append(args)
                     if len(calls) > 1:
                         return None
-                    off = Aff.lift(args[-1])
-                    end = off
+                    # the first definition ends with line k, wherever the reader says its scan starts
+                    end = Aff.lift(0)
                     for l in lines[:k]:
                         end = end.add(l.abs_len(interp))
                     return (end, ('label', 'dest', 'title', 'uri', None))
